@@ -156,6 +156,8 @@ def string_cases(ctx, r):
     words = ["hello", "wor ld", "say \"hi\"", "x", "é€", "tab\\there", "a'b", "{}"]
     for _ in range(600 if ctx.quick else 5000):
         ind = r.choice([0, 2, 4, 8])
+        # the same indentation may be spelled with tabs (a tab is four columns), per block or per line
+        tabs = r.choice([0, 0, 0, 1, 2]) if ind >= 4 else 0
         nl = r.range(1, 5)
         lines, exp = [], []
         for i in range(nl):
@@ -170,12 +172,19 @@ def string_cases(ctx, r):
             # documented examples/tests) denote the same text
             extra = " " * r.choice([0, 0, 2, 4]) if any(x != "" for x in exp) else ""
             w = r.choice(words)
-            lines.append(" " * ind + extra + w)
+            lines.append(indent_text(ind, r, tabs) + extra + w)
             exp.append(extra + w.replace("\\t", "\t"))
-        src = 'let s = """\n' + "\n".join(lines) + "\n" + " " * ind + '"""\nprint(s)\nprintln("|")'
+        src = 'let s = """\n' + "\n".join(lines) + "\n" + indent_text(ind, r, tabs) + '"""\nprint(s)\nprintln("|")'
         n += 1
         cases.append(Case("string triple-block #%d" % n, src, ("out", "\n".join(exp) + "|\n"), meta=("\n".join(exp), src)))
     return cases
+
+
+def indent_text(ind, r, tabs):
+    """`ind` columns of indentation: spaces (tabs=0), tabs (1), or either, chosen per line (2)"""
+    if tabs == 0 or (tabs == 2 and r.chance(50)):
+        return " " * ind
+    return "\t" * (ind // 4)
 
 
 def run(ctx):
